@@ -587,6 +587,20 @@ func BV(op string, a, b *Term) *Term {
 	if a.S.K != KBV || b.S.K != KBV || a.S.W != b.S.W {
 		panic(fmt.Sprintf("bv op %s sort mismatch %s %s", op, a.S, b.S))
 	}
+	// identities with zero
+	if op == "bvadd" || op == "bvor" || op == "bvxor" {
+		if x, ok := a.IsLitBV(); ok && x == 0 {
+			return b
+		}
+		if y, ok := b.IsLitBV(); ok && y == 0 {
+			return a
+		}
+	}
+	if op == "bvsub" {
+		if y, ok := b.IsLitBV(); ok && y == 0 {
+			return a
+		}
+	}
 	// constant folding for a few ops
 	if x, ok := a.IsLitBV(); ok {
 		if y, ok2 := b.IsLitBV(); ok2 && a.S.W <= 64 {
